@@ -50,6 +50,14 @@ Check C09_details_persist : forall (s : orders) (o : op) (c t : Z),
 Check C09_open_report_floor : forall (s : orders) (o : op) (T : Z) (m : meta),
   open_report o = Some (T, m) ->
   exists t', ts (step s o) (cid_of o) = Some t' /\ T <= t'.
+Check C09_open_reports_floor_run : forall (ops : list op) (s : orders) (c T t0 : Z),
+  ts s c = Some t0 -> T <= t0 ->
+  Forall (fun o => cid_of o = c /\ open_report o <> None) ops ->
+  exists t', ts (run ops s) c = Some t' /\ T <= t'.
+Check C09_overfilled_no_rollback : forall (s : orders) (sn : osnap) (m : meta) (ops : list op),
+  o_state sn = SA (Open m) -> rem (o_qty sn) m < 0 ->
+  Forall (fun o => cid_of o = k_cid (o_key sn) /\ open_report o <> None) ops ->
+  exists t', ts (run ops (step s (Snap sn))) (k_cid (o_key sn)) = Some t' /\ m_time m <= t'.
 Check C09_oracle_sound : forall c : case, corr_b c = true -> prop_b c = true.
 
 (* the definitions the statements rest on, pinned by evaluation *)
@@ -73,3 +81,11 @@ Check eq_refl : bal_deliveries 1 [ABalance (BM 1 2 (3, 3)); ASnapshot [BM 0 5 (1
 Check eq_refl : step (step (upd empty 1 (Some (mkO (mkK 0 0 7 1) Buy 100 10 Limit IOC (Open (mkM 5 20 4)))))
                            (RecCancel (mkK 0 0 7 1))) (RecCancel (mkK 0 0 7 1)) 1
                 = Some (mkO (mkK 0 0 7 1) Buy 100 10 Limit IOC (CIF (Some (mkM 5 20 4)))).
+(* an over-filled report (t=30, filled 150 of 100) keeps the order and its timestamp; the older
+   report (t=20) delivered afterwards is refused *)
+Check eq_refl : ts (run [Snap (mkO (mkK 0 0 7 1) Buy 100 100 Limit IOC (SA (Open (mkM 5 30 150))));
+                         Snap (mkO (mkK 0 0 7 1) Buy 100 100 Limit IOC (SA (Open (mkM 5 20 40))))] empty) 1
+                = Some 30.
+Check eq_refl : open_report (Snap (mkO (mkK 0 0 7 1) Buy 100 100 Limit IOC (SA (Open (mkM 5 30 150)))))
+                = Some (30, mkM 5 30 150).
+Check eq_refl : open_report (Snap (mkO (mkK 0 0 7 1) Buy 100 100 Limit IOC (SA (Open (mkM 5 30 100))))) = None.
